@@ -63,7 +63,14 @@ func (x *Exec) callModule(st *State, pk *Pkg, fn *ssa.Function, free []Val, args
 		return x.inlineCall(st, pk, fn, nil, free, args)
 	}
 	if fc == nil {
-		x.fail("callee %s has no contract (add one, or mark it `inline`)", InstName(fn))
+		// a function of the module without a contract (for instance one that a refactoring has just extracted):
+		// verified through its body at this call site, like a closure. Its loops have no invariants, so a loop in it
+		// still stops the verification of the caller.
+		if len(fn.Blocks) == 0 {
+			x.fail("callee %s has no contract and no body", InstName(fn))
+		}
+		x.inlined[InstName(fn)+" (no contract: verified through its body at the call site)"] = true
+		return x.inlineCall(st, pk, fn, nil, free, args)
 	}
 	// a (bounded) lemma may ask for a callee to be verified through its body, with its loops unrolled
 	if top := x.topFc; top != nil && !fc.Inline {
@@ -134,6 +141,14 @@ func resultNames(fn *ssa.Function) [][]string {
 		}
 		if i == res.Len()-1 && isErrorType(res.At(i).Type()) && !named["err"] {
 			out[i] = append(out[i], "err")
+		}
+	}
+	// a renamed result stays reachable under the name recorded from the unchanged tree
+	if theWorld != nil {
+		for i, old := range theWorld.recordedResultAliases(fn) {
+			if !named[old] {
+				out[i] = append(out[i], old)
+			}
 		}
 	}
 	return out
@@ -303,6 +318,9 @@ func (x *Exec) applyContractD(st *State, pk *Pkg, d calleeDesc, fc *FuncContract
 	env := &SpecEnv{x: x, pk: pk, vars: map[string]SVal{}, pre: pre, post: nil, tparams: d.TParams, allocPre: pre.Alloc}
 	for i, n := range d.PNames {
 		env.vars[n] = SVal{V: args[i], T: d.PTypes[i]}
+	}
+	if d.Fn != nil {
+		x.w.addNameAliases(d.Fn, env.vars)
 	}
 	for _, g := range fc.Ghost {
 		env.vars[g.Tags[0]] = env.eval(g.E) // named values of the call's pre-state
@@ -618,6 +636,10 @@ func (x *Exec) appendSeq(st *State, dst SliceVal, src StrVal) SliceVal {
 		x.assume(o.BVCmp("bvsle", dst.Off, o.BVOp("bvsub", o.BV(tyInt.Max(), 64), nc)))
 	} else {
 		x.assume(o.Le(o.Add(dst.Off, nc), o.IntBig(tyInt.Max())))
+		// the new length is a length: it fits an int (it is at most the capacity, see above). Recording the range
+		// keeps a later len(result) from being wrapped when it is converted back to an index.
+		o.SetRange(newLen, big.NewInt(0), tyInt.Max())
+		delete(o.bmemo, newLen)
 	}
 	cp := o.Ite(fits, dst.Cap, nc)
 	res := SliceVal{Reg: reg, Off: dst.Off, Len: newLen, Cap: cp, Elem: dst.Elem}
@@ -1245,6 +1267,8 @@ func (x *Exec) pureAppN(fn *ssa.Function, fc *FuncContract, args []Val, st *Stat
 }
 
 // checkPure: syntactic purity: no stores to pre-existing memory, no goroutines/defers, callees pure.
+var pureDepth int // recursion depth of checkPure through callees without contracts (checks run one at a time per function)
+
 func (w *World) checkPure(fn *ssa.Function, ignores string) string {
 	ign := map[string]bool{}
 	for _, f := range strings.Split(ignores, ",") {
@@ -1350,6 +1374,16 @@ func (w *World) checkPure(fn *ssa.Function, ignores string) string {
 				if pp := fnPkg(callee); pp != nil {
 					if pk, ok := w.ByPath[pp.Pkg.Path()]; ok {
 						cfc := pk.Contracts.Funcs[ContractKey(callee)]
+						if cfc == nil && callee != fn && len(callee.Blocks) > 0 && pureDepth < 6 {
+							// a callee without a contract is verified through its body: it must itself pass this check
+							pureDepth++
+							why := w.checkPure(callee, ignores)
+							pureDepth--
+							if why != "" {
+								return "calls " + InstName(callee) + ", which " + why
+							}
+							continue
+						}
 						if cfc == nil || !(cfc.Pure || cfc.Inline) {
 							return "calls " + InstName(callee) + ", which is not declared pure"
 						}
